@@ -387,28 +387,39 @@ AP3_INVS = ['ReaderAndPickerAgree', 'EveryStoredResultListed', 'LabelsAreKeys']
 AP3_ZONES = ['zA', 'zB', 'zC']
 AP3_ISOTOPES = ['U235', 'U238', 'Pu239']
 AP3_MACRO = 9
+AP3_POOL = AP3_ISOTOPES + ['Am241']
 
 
-def ap3_write(path, file_spec, picks, ngroups):
+def _iso_name(o, z, k, variant):
+    """Name of the k-th isotope (1-based) of zone z of output o.  variant 0: the same list everywhere; variant 1: a
+    list that depends on the output and the zone (as after depletion steps), in files whose outputs share one geometry."""
+    if not variant:
+        return AP3_ISOTOPES[k - 1]
+    return AP3_POOL[(k - 1 + o + z) % len(AP3_POOL)]
+
+
+def ap3_write(path, file_spec, picks, ngroups, variant=0):
     """Write the HDF5 file of an abstract tree: `picks` = [(o, z, iso, name, arr)] with the file's own names."""
     import h5py
     nout = len(file_spec)
+    shared = bool(variant) and len(set(len(out['zones']) for out in file_spec)) == 1
     with h5py.File(path, 'w') as h:
         info = h.create_group('info')
         info['NOUT'] = np.array([nout], dtype=np.int32)
         geom = h.create_group('geometry')
-        geom['NGEO'] = np.array([nout], dtype=np.int32)
+        geom['NGEO'] = np.array([1 if shared else nout], dtype=np.int32)
         for o, out in enumerate(file_spec, 1):
             oname = 'output_%d' % (o - 1)
-            gname = 'geometry_%d' % (o - 1)
+            gname = 'geometry_%d' % (0 if shared else o - 1)
             gi = info.create_group(oname)
             gi['GEOMID'] = np.array([gname.encode()], dtype='S10')
             gi['NG'] = np.array([ngroups], dtype=np.int32)
             nz = len(out['zones'])
-            gg = geom.create_group(gname)
-            gg['NZONE'] = np.array([nz], dtype=np.int32)
-            gg['VOLUME'] = np.arange(1, nz + 1, dtype=np.float32)
-            gg['ZONENAME'] = np.array([AP3_ZONES[z].encode() for z in range(nz)], dtype='S2')
+            if gname not in geom:
+                gg = geom.create_group(gname)
+                gg['NZONE'] = np.array([nz], dtype=np.int32)
+                gg['VOLUME'] = np.arange(1, nz + 1, dtype=np.float32)
+                gg['ZONENAME'] = np.array([AP3_ZONES[z].encode() for z in range(nz)], dtype='S2')
             go = h.create_group(oname)
             go.create_group('totaloutput')
             for z, zs in enumerate(out['zones'], 1):
@@ -416,7 +427,7 @@ def ap3_write(path, file_spec, picks, ngroups):
                 ni = int(zs['ni'])
                 gz['NISOT'] = np.array([ni], dtype=np.int32)
                 if ni:
-                    gz['ISOTOPE'] = np.array([AP3_ISOTOPES[i].ljust(27).encode() for i in range(ni)], dtype='S27')
+                    gz['ISOTOPE'] = np.array([_iso_name(o, z, i + 1, variant).ljust(27).encode() for i in range(ni)], dtype='S27')
                     gz['CONCEN'] = np.zeros(ni, dtype=np.float64)
         for o, z, iso, name, arr in picks:
             grp = h['output_%d' % (o - 1)]['totaloutput' if z == 0 else AP3_ZONES[z - 1]]
@@ -426,17 +437,23 @@ def ap3_write(path, file_spec, picks, ngroups):
             if iso == AP3_MACRO:
                 grp = grp.require_group('macro')
             elif iso:
-                grp = grp.require_group(AP3_ISOTOPES[iso - 1])
+                grp = grp.require_group(_iso_name(o, z, iso, variant))
             grp[name] = np.array(arr, dtype=np.float32)
 
 
-def _ap3_label(item):
+def _ap3_label(item, variant=0):
     out = item.get('output', '')
     zone = item.get('zone', '')
     iso = item.get('isotope')
     o = int(out.split('_')[1]) + 1 if out.startswith('output_') else GARBAGE
     z = 0 if zone == 'totaloutput' else (AP3_ZONES.index(zone) + 1 if zone in AP3_ZONES else GARBAGE)
-    i = 0 if iso is None else (AP3_MACRO if iso == 'macro' else (AP3_ISOTOPES.index(iso) + 1 if iso in AP3_ISOTOPES else GARBAGE))
+    if iso is None:
+        i = 0
+    elif iso == 'macro':
+        i = AP3_MACRO
+    else:
+        i = next((k for k in range(1, len(AP3_ISOTOPES) + 1)
+                  if isinstance(o, int) and isinstance(z, int) and _iso_name(o, z, k, variant) == iso), GARBAGE)
     return o, z, i, item.get('result_name')
 
 
@@ -453,13 +470,13 @@ def _ap3_same_dataset(a, b):
             and all(np.array_equal(a.bins[k], b.bins[k]) for k in a.bins))
 
 
-def ap3_check(file_spec, items, picks, ngroups):
+def ap3_check(file_spec, items, picks, ngroups, variant=0):
     """Write the tree, load it with Reader and pick every result with Picker -> (what, detail) or None.
     items = {(o, z, iso, lower name): arr}, picks = [(o, z, iso, name, arr)] as computed by TLC."""
     from valjean.eponine.apollo3.hdf5_reader import Reader
     from valjean.eponine.apollo3.hdf5_picker import Picker
     path = _tmp_path('tree.hdf')
-    ap3_write(path, file_spec, picks, ngroups)
+    ap3_write(path, file_spec, picks, ngroups, variant)
     try:
         browser = Reader(path).to_browser()
     except Exception as ex:  # pylint: disable=broad-except
@@ -467,7 +484,7 @@ def ap3_check(file_spec, items, picks, ngroups):
     got = {}
     datasets = {}
     for item in browser.content:
-        label = _ap3_label(item)
+        label = _ap3_label(item, variant)
         if label in got:
             return 'reader/duplicate', 'result %s listed twice' % (label,)
         got[label] = _ap3_ints(item['results'])
@@ -486,7 +503,7 @@ def ap3_check(file_spec, items, picks, ngroups):
             kwargs = dict(output='output_%d' % (o - 1), zone='totaloutput' if z == 0 else AP3_ZONES[z - 1],
                           result_name='concentration' if name == 'CONCEN' else name)
             if iso:
-                kwargs['isotope'] = 'macro' if iso == AP3_MACRO else AP3_ISOTOPES[iso - 1]
+                kwargs['isotope'] = 'macro' if iso == AP3_MACRO else _iso_name(o, z, iso, variant)
             try:
                 ds = picker.pick_standard_value(**kwargs)
             except Exception as ex:  # pylint: disable=broad-except
@@ -516,16 +533,19 @@ def _work_ap3(task):
     core.use_repo()
     out = []
     for file_spec, items, picks, ngroups in task:
-        res = ap3_check(file_spec, items, picks, ngroups)
-        out.append((res, dict(kind='ap3', file=file_spec, items=[list(k) + [v] for k, v in sorted(items.items())],
-                              picks=[list(p) for p in picks], ngroups=ngroups) if res else None, len(items)))
+        for variant in (0, 1):
+            res = ap3_check(file_spec, items, picks, ngroups, variant)
+            if res and variant:
+                res = (res[0] + '/shared-geometry', res[1])
+            out.append((res, dict(kind='ap3', file=file_spec, items=[list(k) + [v] for k, v in sorted(items.items())],
+                                  picks=[list(p) for p in picks], ngroups=ngroups, variant=variant) if res else None, len(items)))
     return out
 
 
 def ap3_replay(case):
     items = {tuple(r[:4]): r[4] for r in case['items']}
     picks = [tuple(p) for p in case['picks']]
-    res = ap3_check(case['file'], items, picks, case['ngroups'])
+    res = ap3_check(case['file'], items, picks, case['ngroups'], case.get('variant', 0))
     if res:
         return False, '%s: %s' % res
     return True, '%d stored results loaded and picked identically' % len(items)
